@@ -5,6 +5,7 @@ import (
 	"errors"
 	"fmt"
 	"sync"
+	"time"
 
 	"github.com/ThreeDotsLabs/watermill/message"
 )
@@ -67,6 +68,8 @@ type ScriptedSubscriber struct {
 	closing    chan struct{}
 	closed     bool
 	wg         sync.WaitGroup
+	// CloseWaits: Close (and the end of the subscription) waits until the message in flight has been settled
+	CloseWaits bool
 	// SubscribeErrAt: Subscribe call number (1-based) that fails
 	SubscribeErrAt int
 	// CtxDecor, when set, shapes the context a delivery carries (values it already holds, a deadline, already ended):
@@ -187,6 +190,10 @@ func (s *ScriptedSubscriber) deliver(ctx context.Context, out chan *message.Mess
 		if s.OnEmit != nil {
 			s.OnEmit(d)
 		}
+		closing, ctxDone := s.closing, ctx.Done()
+		if s.CloseWaits {
+			closing, ctxDone = nil, nil // like a broker client whose Close waits until the message in flight is settled
+		}
 		select {
 		case <-m.Acked():
 			cancel()
@@ -202,10 +209,10 @@ func (s *ScriptedSubscriber) deliver(ctx context.Context, out chan *message.Mess
 				return true
 			}
 			continue
-		case <-ctx.Done():
+		case <-ctxDone:
 			cancel()
 			return false
-		case <-s.closing:
+		case <-closing:
 			cancel()
 			return false
 		}
@@ -271,6 +278,9 @@ type ScriptedPublisher struct {
 	Hook   func(c *PubCall)
 	Calls  []*PubCall
 	Closes int
+	// CloseDelay: Close takes that long; ClosesDone counts the Close calls that have returned
+	CloseDelay time.Duration
+	ClosesDone int
 }
 
 func NewScriptedPublisher(r *Run, name string) *ScriptedPublisher {
@@ -325,6 +335,10 @@ func (p *ScriptedPublisher) Publish(topic string, msgs ...*message.Message) erro
 
 func (p *ScriptedPublisher) Close() error {
 	p.Closes++
+	if p.CloseDelay > 0 {
+		time.Sleep(p.CloseDelay) // a publisher that flushes before it is closed
+	}
+	p.ClosesDone++
 	return nil
 }
 
